@@ -75,6 +75,9 @@ pub enum Irq {
     CrcError { len: u8 },
     HeaderError,
     Preamble,
+    /// single-shot reception: a false preamble / valid header and then the symbol timeout, both latched before the
+    /// host reads the interrupt status (SX127x: a plain timeout)
+    PreambleTimeout,
     /// the IRQ wait completes although no flag is set
     Spurious,
     /// drop the future at this wait; `chip_completes`: the chip finishes its operation afterwards
@@ -89,6 +92,7 @@ impl Irq {
             Irq::CrcError { .. } => 3,
             Irq::HeaderError => 4,
             Irq::Preamble => 5,
+            Irq::PreambleTimeout => 8,
             Irq::Spurious => 6,
             Irq::Cancel { .. } => 7,
         }
